@@ -8,6 +8,7 @@ from ..loader import AnalysisError, dotted, norm, walk_no_defs
 from ..minieval import Unsupported
 from ..modelinterp import Bound, Hook, ModelInterp, Stub
 from ..report import RuleReport
+from ..rules.common import through_locals
 
 LEVEL = 'other'
 TECHNIQUE = ('static: interpretation of the child-discovery routine on stand-in object graphs (nodes nested in lists of lists, '
@@ -226,13 +227,15 @@ def r3_attribute_names(a, tier):
     if not ok:
         rep.fail(gen.qualname, 'generator-defines', 'the model-class generator does not take field names from the rule\'s defines lists', gen.loc)
     sp = a.p.func('tatsu.objectmodel.synth.SynthNode.__post_init__')
-    ok = any(isinstance(n, ast.For) and norm(n.iter) == 'self.ast.items()' and any(
+    ok = any(isinstance(n, ast.For) and isinstance(n.iter, ast.Call) and isinstance(n.iter.func, ast.Attribute) and n.iter.func.attr == 'items'
+             and norm(through_locals(sp, n.iter.func.value)) == 'self.ast' and any(
         isinstance(x, ast.Call) and dotted(x.func) == 'setattr' and norm(x.args[0]) == 'self' for x in ast.walk(n)) for n in walk_no_defs(sp.node))
     rep.add({'SynthNode_sets_ast_items_as_attributes': ok})
     if not ok:
         rep.fail(sp.qualname, 'synth-attrs', 'SynthNode.__post_init__ does not set every AST item as an attribute', sp.loc)
     bp = a.p.func('tatsu.objectmodel.basenode.BaseNode.__post_init__')
-    ok = any(isinstance(x, ast.Call) and dotted(x.func) == 'setattr' and len(x.args) == 3 and norm(x.args[2]).startswith('ast[') for x in walk_no_defs(bp.node))
+    ok = any(isinstance(x, ast.Call) and dotted(x.func) == 'setattr' and len(x.args) == 3 and isinstance(x.args[2], ast.Subscript)
+             and norm(through_locals(bp, x.args[2].value)) == 'self.ast' and norm(x.args[2].slice) == norm(x.args[1]) for x in walk_no_defs(bp.node))
     rep.add({'BaseNode_injects_ast_keys': ok})
     if not ok:
         rep.fail(bp.qualname, 'basenode-attrs', 'BaseNode.__post_init__ does not inject the AST values into the declared fields', bp.loc)
